@@ -466,6 +466,12 @@ impl ReadRun {
 	}
 }
 
+thread_local! {
+	/// `Some(seed)`: the seed-based readers capture through a target that hands some record fields to an ignoring
+	/// visitor (a caller's struct that does not declare every field); they come back as the marker string
+	pub static READ_MASK: std::cell::Cell<Option<u64>> = const { std::cell::Cell::new(None) };
+}
+
 fn drive<'de, R>(
 	ctor: Result<(Reader<R>, BTreeMap<String, ByteBuf>), serde_avro_fast::object_container_file_encoding::FailedToInitializeReader>,
 	env: &Env,
@@ -496,7 +502,10 @@ fn drive<'de, R>(
 			break;
 		}
 		run.calls += 1;
-		let ctx = CapCtx::new(env);
+		let ctx = match READ_MASK.with(|m| m.get()) {
+			Some(seed) => CapCtx::masked(env, seed ^ run.calls as u64),
+			None => CapCtx::new(env),
+		};
 		let r = catch(|| reader.deserialize_seed_next(Capture { ty, ctx: &ctx }));
 		match r {
 			Err(p) => {
